@@ -48,6 +48,9 @@ class _Timeout(BaseException):
     pass
 
 
+_TIMED_OUT: dict = {}
+
+
 def canon(case) -> str:
     return json.dumps(case, sort_keys=True, separators=(",", ":"), allow_nan=True)
 
@@ -143,13 +146,27 @@ class Ctx:
         """Run fn under a watchdog; not returning within `limit` s is a violation."""
 
         def handler(signum, frame):
+            # an exception raised inside a gc callback (Hypothesis installs one) is swallowed by the
+            # interpreter: if the signal lands there, fire again a moment later instead of raising
+            f, depth = frame, 0
+            while f is not None and depth < 3:
+                if f.f_code.co_name == "gc_callback":
+                    signal.setitimer(signal.ITIMER_REAL, 0.01)
+                    return
+                f, depth = f.f_back, depth + 1
             raise _Timeout()
 
+        # once a clause has timed out in this process, later calls get a short leash (the hang is
+        # already a violation; waiting the full limit for every further input only burns time and memory)
+        key = f"{self.sub}/{clause}"
+        if _TIMED_OUT.get(key):
+            limit = min(limit, 0.25)
         old = signal.signal(signal.SIGALRM, handler)
         signal.setitimer(signal.ITIMER_REAL, limit)
         try:
             return fn(*a, **kw)
         except _Timeout:
+            _TIMED_OUT[key] = _TIMED_OUT.get(key, 0) + 1
             raise Violation(f"{self.sub}/{clause}/does-not-return", f"no answer within {limit}s")
         finally:
             signal.setitimer(signal.ITIMER_REAL, 0)
